@@ -426,6 +426,52 @@ def r5d_element_of_another_paragraph(rep, src):
                              where=fn.where)
 
 
+def r5e_element_in_two_paragraphs(rep, src):
+    """set_kvpair_element neither copies nor moves: after q.set_kvpair_element('A', p.get_kvpair_element('A')) ONE element object
+    stands in both paragraphs, with one parent link.  The history "put it into the other paragraph, set it here again, replace it
+    here": the element still stands in the other paragraph, so its link must not be None afterwards (None makes every dump of the
+    document raise AssertionError).  With a single link that cannot hold for both orders of such histories -- an ownership model for
+    field elements (refuse, move or copy) would be needed"""
+    A, B, C = H.Key('a', 'A'), H.Key('b', 'B'), H.Key('c', 'C')
+    for cname in (NOD, DUP):
+        log = []
+        heap = mk_heap(src, log)
+        if cname == DUP:
+            para, kvs, nodes = build_dup(heap, [A, B, C])
+        else:
+            keys = [A, B, C]
+            lst, nodes = H.build_list(heap, keys)
+            table = heap.new_dict('@table')
+            for k_, n_ in zip(keys, nodes):
+                heap.objs[table.name]['entries'].append((k_, n_))
+            oset = heap.alloc('OrderedSet', {'_OrderedSet__table': table, '_OrderedSet__order': lst}, name='@set')
+            d = heap.new_dict('@elements')
+            for k_ in keys:
+                heap.objs[d.name]['entries'].append((k_, mk_kv(heap, k_, k_.cls + '0')))
+            para = heap.alloc(NOD, {'_kvpair_order': oset, '_kvpair_elements': d, 'parent_element': None}, name='@para')
+            for k_, v_ in heap.objs[d.name]['entries']:
+                heap.objs[v_.name]['parent_element'] = para
+        other = heap.alloc('ParagraphOfAnotherPlace', {}, name='@other')
+        shared = H.Ref('@kv_a0')
+        heap.objs[shared.name]['parent_element'] = other          # q.set_kvpair_element('A', p.get_kvpair_element('A')) has happened
+        fn = heap.module.method(cname, 'set_kvpair_element')
+        rep.saw_func(fn)
+        it = H.Interp(heap)
+        what = 'an element that also stands in another paragraph is set here again and then replaced here'
+        try:
+            it.call(H.Closure(fn.node, {}, para, fn.cls), [A, shared])
+            it.call(H.Closure(fn.node, {}, para, fn.cls), [A, mk_kv(heap, A, 'NEW')])
+        except H.Raised as x:
+            rep.fail('C10.R4', fn.site, what, 'raises %s (line %d)' % (x.exc, x.lineno), where=fn.where)
+            continue
+        now = heap.objs[shared.name]['parent_element']
+        if now is None:
+            rep.fail('C10.R4', fn.site, what, 'the element -- still listed by the other paragraph -- ends with no parent: kv = p.get_kvpair_element("A"); q.set_kvpair_element("A", kv); '
+                     'p.set_kvpair_element("A", kv); p["A"] = "x"; file.dump() raises AssertionError (one element object in two paragraphs, one parent link)', where=fn.where)
+        else:
+            rep.ok('C10.R4', fn.site, what, 'the element keeps a parent (%s)' % (now.name if isinstance(now, H.Ref) else now))
+
+
 def r_nodup(rep, src):
     """the unique-field paragraph: order through OrderedSet, elements in a dict"""
     A, B, C, Z = H.Key('a', 'A'), H.Key('b', 'B'), H.Key('c', 'C'), H.Key('z', 'Z')
@@ -869,6 +915,7 @@ def check(src, rep, tier):
     rep.guard('C10.R5', r_nodup_histories, src)
     rep.guard('C10.R4', r4_file_insert_append, src)
     rep.guard('C10.R4', r5d_element_of_another_paragraph, src)
+    rep.guard('C10.R4', r5e_element_in_two_paragraphs, src)
     rep.guard('C10.R2', r_sort, src)
     rep.guard('C10.R6', r6_replaced_occurrence, src)
 
